@@ -89,15 +89,15 @@ class History:
         elif k == 'cofactor' and names:
             vs = rng.sample(names, rng.randint(1, min(3, len(names))))
             d = ','.join(f'n:{v}={rng.randint(0, 1)}' for v in vs)
-            self.add(s.op(mid, 'let_b', self.pick(), d))
+            self.add(s.op(mid, rng.choice(['let_b', 'cofactor']), self.pick(), d))
         elif k == 'compose' and names:
             vs = rng.sample(names, rng.randint(1, min(2, len(names))))
             d = ','.join(f'{v}={self.pick()}' for v in vs)
-            self.add(s.op(mid, 'let_r', self.pick(), d))
+            self.add(s.op(mid, rng.choice(['let_r', 'compose']), self.pick(), d))
         elif k == 'rename' and names:
             vs = rng.sample(names, rng.randint(1, min(3, len(names))))
             d = ','.join(f'{v}={rng.choice(names)}' for v in vs)
-            self.add(s.op(mid, 'let_n', self.pick(), d))
+            self.add(s.op(mid, rng.choice(['let_n', 'rename']), self.pick(), d))
         elif k == 'quantify' and names:
             vs = rng.sample(names, rng.randint(1, min(3, len(names))))
             q = ','.join('n:' + v for v in vs)
@@ -119,6 +119,17 @@ class History:
                     return
             self.release()
         elif k == 'gc':
+            if rng.random() < 0.3 and len(self.pool) > 1:
+                # the public ROOTED collection: starts from the given nodes that are unreferenced;
+                # roots of either sign, held ones, constants, repeats, possibly none
+                rs = [rng.choice(self.pool) * rng.choice([1, -1]) for _ in range(rng.randint(0, 4))]
+                if rng.random() < 0.3:
+                    rs.append(rng.choice([1, -1]))
+                if rs:
+                    self.ctx.count('op:gc-rooted')
+                    s.op(mid, 'gc_roots', ','.join(map(str, rs)))
+                    self.prune()
+                    return
             s.op(mid, 'gc')
             self.prune()
         elif k == 'swap' and len(names) >= 2:
